@@ -639,6 +639,12 @@ func FuzzRead(f *testing.F) {
 		if len(s) > 1<<16 {
 			return
 		}
+		if stats.Excl("c04-bencode-string-alloc") && hugeHeader.Match(s) {
+			// region of the known finding: every execution would allocate the
+			// declared length (gigabytes), and sixteen workers at once die of it
+			stats.Excluded("c04-bencode-string-alloc")
+			return
+		}
 		out, fail := checkStream(s, false)
 		stats.Case(fmt.Sprintf("%d/%s", out.frames, out.lastErr), out.frames > 0)
 		if fail != "" {
